@@ -415,6 +415,22 @@ def pair_space(tier, seed):
                                  R=ragged_tables(('rid', 'k', 'rv'), palpha, 'R', 2, keyed, True),
                                  kw=[{'key': 'k', 'presorted': True},
                                      {'key': 'k', 'presorted': True, 'missing': MISS}])
+    # tuple-VALUED cells in a SINGLE key field (hashable, legal: e.g. a (year, week) period): one-element,
+    # two-element, None-containing and empty tuples next to None / numbers / text; ordered element-wise
+    KT = spaces.K4(seed) + [(r['i1'],), (r['i1'], r['i2']), (None, r['s1']), ()]
+    tv = key_tuples(KT, 2)
+    if tier == 'thorough':
+        seen = set(repr(v) for v in tv)
+        for v in key_tuples([r['i1'], (r['i1'],), (r['i1'], r['i2']), ()], 3):
+            if repr(v) not in seen:
+                seen.add(repr(v))
+                tv.append(v)
+        tv.sort(key=len)
+    V['key-tuples'] = dict(L=_rect(('k', 'lid'), [0], tv, 'L'), R=_rect(('k', 'rid'), [0], tv, 'R'),
+                           kw=[{'key': 'k'}, {'key': 'k', 'missing': MISS}])
+    tv2 = key_tuples(KT, 2)
+    V['tuples-lkey-rkey'] = dict(L=_rect(('lid', 'k'), [1], tv2, 'L'), R=_rect(('j', 'rid'), [0], tv2, 'R'),
+                                 kw=[{'lkey': 'k', 'rkey': 'j'}, {'lkey': 1, 'rkey': 0, 'missing': MISS}])
     if tier == 'thorough':
         k6 = key_tuples(spaces.K6(seed), 3)
         V['key-K6'] = dict(L=_rect(('k', 'lid'), [0], k6, 'L'), R=_rect(('k', 'rid'), [0], k6, 'R'),
